@@ -1,5 +1,6 @@
 """C10 — oracle prices are the power-weighted median of a sufficient quorum."""
 import copy
+import json
 
 ID = "C10"
 HARNESS_TEST = "TestC10.*"
@@ -72,10 +73,10 @@ def _hist_case(rec):
     inp, obs = rec["input"], rec["obs"]
     p = inp["params"]
     params = "(mkParams %s %s %s %s %s)" % (_z(p["vp"]), _z(p["thr"]), _z(p["minv"]), _z(p["exp"]), _z(p["band"]))
-    pre = obs["pre"]
-    vals = "[%s]" % "; ".join("mkVal %d%%nat %s %s" % (v["id"], _b(v["bonded"]), _z(v["power"])) for v in pre["order"])
-    env = "(mkHEnv %s %d%%nat %s %s [%s])" % (vals, pre["maxv"], _z(pre["btok"]), _z(pre["pr"]),
-                                             "; ".join("%d%%nat" % w for w in inp["wl"]))
+    def _env(pre):
+        vals = "[%s]" % "; ".join("mkVal %d%%nat %s %s" % (v["id"], _b(v["bonded"]), _z(v["power"])) for v in pre["order"])
+        return "(mkHEnv %s %d%%nat %s %s [%s])" % (vals, pre["maxv"], _z(pre["btok"]), _z(pre["pr"]),
+                                                 "; ".join("%d%%nat" % w for w in inp["wl"]))
     steps = []
     for st, so in zip(inp["steps"], obs["steps"]):
         x = "(mkHStep %s [%s] %s)" % (_votes(st["votes"]),
@@ -86,8 +87,8 @@ def _hist_case(rec):
             "; ".join("(%d%%nat, %s)" % (e["p"], _z(e["r"])) for e in so["events"] or []),
             _votes(so["votes"]),
             "; ".join("(%d%%nat, %s)" % (pv["voter"], _z(pv["submit"])) for pv in so["prevotes"] or []))
-        steps.append("(%s, %s)" % (x, o))
-    return "(CHist %s %s %s [%s])" % (params, env, _rates(inp["rates"]), ";\n    ".join(steps))
+        steps.append("(%s, %s, %s)" % (_env(so.get("pre") or obs["pre"]), x, o))
+    return "(CHist %s %s [%s])" % (params, _rates(inp["rates"]), ";\n    ".join(steps))
 
 
 def _hist_flags(rec):
@@ -117,6 +118,12 @@ def _hist_flags(rec):
             fl.add("mid-period-block")
         if so["prevotes"]:
             fl.add("prevotes-kept")
+        win = inp["params"].get("win") or 0
+        if win and (so["h"] + 1) % win == 0:
+            fl.add("slash-window-end")
+    views = [json.dumps(so.get("pre"), sort_keys=True) for so in obs["steps"]]
+    if len(set(views)) > 1:
+        fl.add("staking-view-changed")
     return fl
 
 
